@@ -53,7 +53,7 @@ theorem top_level (lc : Libc) (t : Tok) (hwf : WF t) (hst : t.stack = [⟨.eatws
   | cons nb rs =>
     have hnb : Follow nb := by
       cases ht : x.trail.text with
-      | nil => rw [ht] at htr; simp at htr; rw [← htr.1]; exact Or.inr (Or.inr (Or.inr (Or.inr rfl)))
+      | nil => rw [ht] at htr; simp at htr; rw [← htr.1]; exact Or.inr (Or.inr (Or.inr (Or.inr (Or.inl rfl))))
       | cons y ys => rw [ht] at htr; simp at htr; rw [← htr.1]; exact Or.inl (htrail y (by simp [ht])).1
     obtain ⟨t', l', hs', hf, hwf', hl', hrun⟩ := hP nb hnb (fun _ => rfl) (lastOr 1 x.lead.text) (0 + x.lead.text.length) rs
     rw [hrun, ← htr, run_trailer lc t' l' v none hs' (hf.noVal hv) x.trail.text htrail]
